@@ -76,6 +76,9 @@ structure World where
   pstores : List (Nat × Txn.P) := []
   /-- swarms of replicas (C04) -/
   swarms : List (Nat × Swarm.S) := []
+  /-- specification bookkeeping for C15: the policy last set per (store, document) since the
+  document was (re-)created -/
+  policySpec : List ((Nat × Bytes) × Tables.Policy) := []
   /-- specification bookkeeping for C14: the sync switch per (actor, open document), from the
   history of acknowledged requests: the first open sets it, further opens can only enable it,
   set-sync sets it, the last close forgets it -/
@@ -1112,6 +1115,7 @@ def step (w : World) (line : String) : World × String :=
           let old := (w.regs.lookup sid).getD []
           let oldImports := (w.imports.lookup sid).getD []
           ({ w.setT sid (Tables.removeReplica t ns) with
+             policySpec := w.policySpec.filter (·.1 != (sid, ns)),
              regs := (sid, old.filter (·.1 != ns)) :: w.regs.filter (·.1 != sid),
              imports := (sid, oldImports.filter (·.1 != ns)) :: w.imports.filter (·.1 != sid) }, "ok")
       | none => (w, "no-store")
@@ -1144,7 +1148,8 @@ def step (w : World) (line : String) : World × String :=
       match w.getT sid with
       | some t =>
         match Tables.setDownloadPolicy t ns pol with
-        | some t' => (w.setT sid t', "ok")
+        | some t' =>
+          ({ w.setT sid t' with policySpec := ((sid, ns), pol) :: w.policySpec.filter (·.1 != (sid, ns)) }, "ok")
         | none => (w, "err:no-document")
       | none => (w, "no-store")
     | _, _, _ => (w, "bad-op")
@@ -1154,6 +1159,18 @@ def step (w : World) (line : String) : World × String :=
       match w.getT sid with
       | some t => (w, showPolicy (Tables.getDownloadPolicy t ns))
       | none => (w, "no-store")
+    | _, _ => (w, "bad-op")
+  -- specification: the policy of a document is the one set last since it was (re-)created, the
+  -- default otherwise
+  | ["sgetpolicy", sid, ns] =>
+    match parseNat? sid, Bytes.ofHex ns with
+    | some sid, some ns => (w, showPolicy ((w.policySpec.lookup (sid, ns)).getD Tables.Policy.default))
+    | _, _ => (w, "bad-op")
+  -- specification: a document can be removed only while no replica of it is open (by the history
+  -- of opens and closes)
+  | ["sisopen", sid, ns] =>
+    match parseNat? sid, Bytes.ofHex ns with
+    | some sid, some ns => (w, if (w.getOpen sid).contains ns then "open" else "closed")
     | _, _ => (w, "bad-op")
   | ["policymatch", pol, key] =>
     match parsePolicy? pol, Bytes.ofHex key with
